@@ -17,7 +17,7 @@ func init() {
 		ID:    "C16",
 		Title: "Aggregations are exact over the whole match set",
 		Rules: []string{"C16.R1", "C16.R2", "C16.R3", "C16.R4", "C16.R5", "C16.R6", "C16.R7", "C09.R5"},
-		Decides: "that every hit and every needed value reaches every calculator: in every collector function that feeds a hit to the top-level bucket, on every path the document values are loaded (whenever fields are needed) before Bucket.Consume, and Consume happens before the paging key, the pruning bound, the top-N store or the match pool are consulted and before any successful return; every hit obtained from the searcher in the collect loop is handed to that function before the next hit is fetched; every Aggregation type that owns nested aggregations includes their Fields() in its own; every Calculator type that owns buckets finishes each of them in its Finish(). the field list handed to the doc-value reader went through a uniqueness filter; a calculator's match counter is incremented exactly once per consumed match.",
+		Decides: "that every hit and every needed value reaches every calculator: in every collector function that feeds a hit to the top-level bucket, on every path the document values are loaded (whenever fields are needed) before Bucket.Consume, and Consume happens before the paging key, the pruning bound, the top-N store or the match pool are consulted and before any successful return; every hit obtained from the searcher in the collect loop is handed to that function before the next hit is fetched; every Aggregation type that owns nested aggregations includes their Fields() in its own; every Calculator type that owns buckets finishes each of them in its Finish(). the field list handed to the doc-value reader went through a uniqueness filter; a calculator's match counter is incremented exactly once per consumed match. lists a function builds for a hit with append do not start from a field or package variable.",
 		NotCovered: "numeric exactness of the individual calculators (sums, sketches, quantiles); the values the sources extract.",
 	})
 	registerRule(&RuleInfo{ID: "C16.R1", Title: "every hit is consumed by the aggregations before paging/pruning", Floor: 3, Run: ruleC16R1,
